@@ -414,6 +414,17 @@ func (a *adversary) onPropose(nd *Node, p *hotstuff.ProposeMsg) bool {
 	}
 	w := a.w
 	b := p.Block
+	if has(acts, "aggtwin") && p.AggregateQC != nil && a.chance(0.8) {
+		// the leader's own entry of the aggregate attests a relabelled copy of the genuine high QC (same bytes,
+		// same view, signer labels rotated): honestly signed by the leader, invalid as a certificate
+		if agg, ok := a.twinInAggregate(nd, *p.AggregateQC); ok {
+			for _, id := range a.others(nd) {
+				a.sendTo(nd, id, "propose", hotstuff.ProposeMsg{ID: nd.id, Block: b, AggregateQC: &agg})
+			}
+			a.fired("aggtwin")
+			return true
+		}
+	}
 	switch {
 	case has(acts, "equivocate") && a.chance(0.6):
 		// two blocks for one view, each to a part of the cluster
@@ -485,10 +496,135 @@ func (a *adversary) onPropose(nd *Node, p *hotstuff.ProposeMsg) bool {
 	return false
 }
 
+// twinInAggregate rebuilds an aggregate certificate so that the Byzantine replica's own attested QC is a
+// relabelled twin of the highest attested one; its own timeout-message signature is made afresh.
+func (a *adversary) twinInAggregate(nd *Node, agg hotstuff.AggregateQC) (hotstuff.AggregateQC, bool) {
+	var high hotstuff.QuorumCert
+	found := false
+	for id := 1; id <= a.w.plan.N; id++ {
+		if qc, ok := agg.QCs()[hotstuff.ID(id)]; ok && qc.Signature() != nil && (!found || qc.View() > high.View()) {
+			high, found = qc, true
+		}
+	}
+	if !found {
+		return agg, false
+	}
+	ps := permuteSig(high.Signature())
+	if ps == nil {
+		return agg, false
+	}
+	twin := hotstuff.NewQuorumCert(ps, high.View(), high.BlockHash())
+	own := a.ownSig(nd, hotstuff.TimeoutMsg{ID: nd.id, View: agg.View(), SyncInfo: hotstuff.NewSyncInfoWith(twin)}.ToBytes())
+	if own == nil {
+		return agg, false
+	}
+	sig := replaceSigner(agg.Sig(), nd.id, own)
+	if sig == nil {
+		return agg, false
+	}
+	qcs := map[hotstuff.ID]hotstuff.QuorumCert{}
+	for id := 1; id <= a.w.plan.N; id++ {
+		if qc, ok := agg.QCs()[hotstuff.ID(id)]; ok {
+			qcs[hotstuff.ID(id)] = qc
+		}
+	}
+	qcs[nd.id] = twin
+	return hotstuff.NewAggregateQC(qcs, sig, agg.View()), true
+}
+
+// replaceSigner returns the multi-signature with id's entry replaced by (or, if absent, extended with) the
+// single signature own, entries sorted by signer.
+func replaceSigner(sig hotstuff.QuorumSignature, id hotstuff.ID, own hotstuff.QuorumSignature) hotstuff.QuorumSignature {
+	switch s := sig.(type) {
+	case crypto.Multi[*crypto.EDDSASignature]:
+		o, ok := own.(crypto.Multi[*crypto.EDDSASignature])
+		if !ok || len(o) != 1 {
+			return nil
+		}
+		out := make(crypto.Multi[*crypto.EDDSASignature], 0, len(s)+1)
+		done := false
+		for _, e := range s {
+			if e.Signer() == id {
+				continue
+			}
+			if !done && e.Signer() > id {
+				out = append(out, o[0])
+				done = true
+			}
+			out = append(out, e)
+		}
+		if !done {
+			out = append(out, o[0])
+		}
+		return out
+	case crypto.Multi[*crypto.ECDSASignature]:
+		o, ok := own.(crypto.Multi[*crypto.ECDSASignature])
+		if !ok || len(o) != 1 {
+			return nil
+		}
+		out := make(crypto.Multi[*crypto.ECDSASignature], 0, len(s)+1)
+		done := false
+		for _, e := range s {
+			if e.Signer() == id {
+				continue
+			}
+			if !done && e.Signer() > id {
+				out = append(out, o[0])
+				done = true
+			}
+			out = append(out, e)
+		}
+		if !done {
+			out = append(out, o[0])
+		}
+		return out
+	}
+	return nil
+}
+
 func (a *adversary) onTimeout(nd *Node, m *hotstuff.TimeoutMsg) bool {
 	acts := a.acts(nd)
 	if acts == nil || !a.chance(nd.byz.Rate) {
 		return false
+	}
+	if has(acts, "aggtwin") && m.MsgSignature != nil && a.chance(0.8) {
+		// its own timeout attests a relabelled twin of its high QC (the signed bytes are the same): honest
+		// collectors put it into the aggregates they assemble
+		// The QC is the newest one any Byzantine replica has seen (vote collectors form real QCs even where the
+		// honest replicas never adopt them); colluding replicas attest it genuinely or as the twin, by their slot.
+		qc, ok := m.SyncInfo.QC()
+		if len(a.qcs) > 0 {
+			qc, ok = a.qcs[len(a.qcs)-1], true
+			for _, c := range a.qcs {
+				if c.View() > qc.View() {
+					qc = c
+				}
+			}
+		}
+		if ok && qc.Signature() != nil {
+			att := qc
+			rank := 0
+			for i, b := range a.w.plan.Byz {
+				if b.ID == int(nd.id) {
+					rank = i
+				}
+			}
+			if rank%2 == 0 {
+				if ps := permuteSig(qc.Signature()); ps != nil {
+					att = hotstuff.NewQuorumCert(ps, qc.View(), qc.BlockHash())
+				}
+			}
+			fm := *m
+			si := fm.SyncInfo
+			si.SetQC(att)
+			fm.SyncInfo = si
+			fm.MsgSignature = a.ownSig(nd, fm.ToBytes())
+			for _, id := range a.others(nd) {
+				a.sendTo(nd, id, "timeout", fm)
+			}
+			a.fired("aggtwin-timeout")
+			return true
+		}
 	}
 	if has(acts, "futuretimeout") && a.chance(0.7) {
 		// correctly signed timeouts for views the replica is not in
@@ -624,6 +760,10 @@ func (a *adversary) onVote(nd *Node, to hotstuff.ID, c *hotstuff.PartialCert) bo
 			}
 			if sig := claimSigner(w.plan.Crypto, c.Signature(), victim); sig != nil {
 				a.sendTo(nd, to, "vote", hotstuff.VoteMsg{ID: nd.id, PartialCert: hotstuff.NewPartialCert(sig, c.BlockHash())})
+				if a.chance(0.5) {
+					// the same bytes again at once: two verifications of one invalid vote in flight together
+					a.sendTo(nd, to, "vote", hotstuff.VoteMsg{ID: nd.id, PartialCert: hotstuff.NewPartialCert(sig, c.BlockHash())})
+				}
 			}
 		}
 		a.sendTo(nd, to, "vote", hotstuff.VoteMsg{ID: nd.id, PartialCert: *c})
@@ -660,6 +800,17 @@ func (a *adversary) onNewView(nd *Node, to hotstuff.ID, si *hotstuff.SyncInfo) b
 	acts := a.acts(nd)
 	if acts == nil || !a.chance(nd.byz.Rate) {
 		return false
+	}
+	if agg, ok := si.AggQC(); ok && has(acts, "aggtwin") && a.chance(0.8) {
+		if tw, ok := a.twinInAggregate(nd, agg); ok {
+			fsi := *si
+			fsi.SetAggQC(tw)
+			for _, id := range a.others(nd) {
+				a.sendTo(nd, id, "newview", hotstuff.NewViewMsg{ID: nd.id, SyncInfo: fsi, FromNetwork: true})
+			}
+			a.fired("aggtwin")
+			return true
+		}
 	}
 	if has(acts, "forgetc") && a.chance(0.7) {
 		// a timeout certificate nobody backs, riding next to whatever valid certificate the replica was about to send
